@@ -244,6 +244,11 @@ def run(ctx, rep):
     stats, bad = execcheck.run(ctx.rng('exec').randrange(10 ** 6), 300 if ctx.quick else 3000)
     rep.coverage.update(stats)
     rep.evaluations += stats['exec_programs']
+    # ---- nested scopes holding forwarding calls (Model/ExecNested.v, theorem C05_flags_sound_nested) ----
+    nstats, nbad = execcheck.run_nested(ctx.rng('execn').randrange(10 ** 6), 200 if ctx.quick else 2000)
+    rep.coverage.update(nstats)
+    rep.evaluations += nstats['nested_programs']
+    bad = bad + nbad
     for b in bad:
         if b['kind'] == 'flags' and b.get('concrete'):
             c = b['concrete']
